@@ -411,7 +411,7 @@ func (fc *FnCtx) fieldAddr(st *State, base Val, idx int, pos token.Pos) Val {
 		fc.fail(pos, "address of field of non-pointer struct value (outside subset)")
 	}
 	f := s.Field(idx)
-	fn := sym("addr$" + fc.typeName(owner) + "$" + f.Name())
+	fn := sym("addr$" + fc.ownerName(owner) + "$" + f.Name())
 	if !fc.declared[fn] {
 		fc.declared[fn] = true
 
